@@ -18,7 +18,9 @@ PROPERTY = "C05"
 TRACE = "T_GeomFeatures"
 ENUM = {
     "quick":    [dict(module="MC_GeomFeatures", cfg="MC_GeomFeatures_quick.cfg", workers=8)],
-    "thorough": [dict(module="MC_GeomFeatures", cfg="MC_GeomFeatures_thorough.cfg", workers=16, coverage=True)],
+    # coverage guard on the small sub-universe "cov" (see checks/c03.py)
+    "thorough": [dict(module="MC_GeomFeatures", cfg="MC_GeomFeatures_thorough.cfg", workers=16),
+                 dict(module="MC_GeomFeatures", cfg="MC_GeomFeatures_cov.cfg", workers=4, coverage=True, expect_cases=False)],
 }
 POOL = 12
 CHUNK = 1500
